@@ -308,6 +308,53 @@ def run_delegation_script(script, variant=0):
                 back = {pid: {"del": p.get_delegation_id(), "on": p.get_defined_on(), "for": sorted(p.get_defined_for()),
                               "det": _det_name(tn, p.get_pool_details(), variant)} for pid, p in p2.pool_by_id.items()}
                 res = {"k": "pools", "nodes": nodes, "back": back}
+            elif op == "PoolsViaGraph":
+                from fim.graph import networkx_property_graph as nxpg
+                from fim.graph.networkx_property_graph import NetworkXPropertyGraph, NetworkXGraphImporter
+                from fim.graph.resources.networkx_arm import NetworkXARMGraph
+                nxpg.NetworkXGraphStorage.storage_instance = None
+                imp = NetworkXGraphImporter()
+                g = NetworkXPropertyGraph(graph_id="arm-x", importer=imp)
+                own = list(o["own"] or [])
+                members = set(own) | {"n1", "n2", "n3", "x9"}
+                for n in sorted(members):
+                    g.add_node(node_id=n, label="NetworkNode", props={"Name": n, "Type": "Server"})
+                pools = Pools(atype=at)
+                for pid, p in o["fam"].items():
+                    pl = Pool(atype=at, pool_id=pid, delegation_id=p["del"], defined_on=p["on"], defined_for=list(p["for"]))
+                    pl.set_pool_details(_details(tn, p["det"], variant))
+                    pools.add_pool(pool=pl)
+                pools.build_index_by_delegation_id()
+                dels = {}
+                for n in own:
+                    ds = Delegations(atype=at)
+                    d = Delegation(atype=at, delegation_id="delS")
+                    d.set_details(_details(tn, "d2", variant))
+                    ds.add_delegations(d)
+                    dels[n] = ds
+                arm = NetworkXARMGraph(graph=g)
+                before = {n: dict(g.get_node_properties(node_id=n)[1]) for n in sorted(members)}
+                try:
+                    arm.annotate_delegations_and_pools(dels=dels, pools=pools)
+                except Exception:
+                    if {n: dict(g.get_node_properties(node_id=n)[1]) for n in sorted(members)} != before:
+                        raise RuntimeError("refused, but something was written")
+                    raise
+                nodes = {}
+                p2 = Pools(atype=at)
+                for n in sorted(members):
+                    got = arm.get_delegations(node_id=n, delegation_type=at)
+                    if got is None:
+                        continue
+                    nodes[n] = {did: {"fmt": RFMT[d.get_format()], "pool": d.get_pool_name() or "", "det": _det_name(tn, d.get_details(), variant)}
+                                for did, d in got.delegations.items()}
+                    if any(d.get_format() != DelegationFormat.SinglePool for d in got.delegations.values()):
+                        p2.incorporate_delegation(node_id=n, deleg=got)
+                p2.validate_pools()
+                back = {pid: {"del": p.get_delegation_id(), "on": p.get_defined_on(), "for": sorted(p.get_defined_for()),
+                              "det": _det_name(tn, p.get_pool_details(), variant)} for pid, p in p2.pool_by_id.items()}
+                res = {"k": "pools", "nodes": nodes, "back": back}
+                imp.delete_all_graphs()
         except Exception as e:  # noqa
             out, res = type(e).__name__, {"k": "none"}
         steps.append({"op": o, "out": out, "res": res})
